@@ -257,8 +257,8 @@ PLAN["C08"] = {
     "assumptions": HIST_ASSUMPTIONS + ["the process-wide symbolic alphabet is pre-registered in a fixed order (a, b, g) once per worker so that symbol codes, and with them the state keys, do not depend on earlier cases"],
     "claim": "All operation histories up to the stated depth over BDD automata that share transition tables, plus exhaustive single calls over the finite domains.",
     "technique": "explicit-state breadth-first search over operation histories of BDD automata sharing transition tables + bounded exhaustive enumeration of single calls",
-    "quick": [("rel", "c08.single.n2s2k3"), ("rel", "c08.single.n3s3pk3"), ("rel", "c08.single.ov.n2k4"), ("rel", "c08.pairs.n2s2k2"), ("rel", "c08.pairs.ov.trim.n2k3"), ("rel", "c08.pairs.trim.n3s3pk3"), ("rel", "c08.hist.bu.d4"), ("rel", "c08.hist.td.d4")],
-    "thorough": [("rel", "c08.single.n2s3k4"), ("rel", "c08.single.n3s3pk3"), ("rel", "c08.pairs.n2s2k3"), ("rel", "c08.pairs.n2s3k2"), ("rel", "c08.pairs.trim.n3s3pk3"), ("rel", "c08.pairs.trim.n3s3pk4"), ("rel", "c08.single.ov.n2k4"), ("rel", "c08.pairs.ov.n2k3"), ("rel", "c08.pairs.ov1.n2k2"), ("rel", "c08.hist.bu.d5"), ("rel", "c08.hist.td.d5"), ("asan", "c08.hist.bu.d3"), ("asan", "c08.hist.td.d3")],
+    "quick": [("rel", "c08.single.n2s2k3"), ("rel", "c08.single.n3s3pk3"), ("rel", "c08.single.ov.n2k4"), ("rel", "c08.pairs.n2s2k2"), ("rel", "c08.pairs.ov.trim.n2k3"), ("rel", "c08.pairs.trim.n3s3pk3"), ("rel", "c08.hist.bu.d4"), ("rel", "c08.hist.td.d4"), ("rel", "c08.hist.bu.seeded1.d3"), ("rel", "c08.hist.td.seeded1.d3"), ("rel", "c08.hist.bu.seeded2.d3")],
+    "thorough": [("rel", "c08.single.n2s3k4"), ("rel", "c08.single.n3s3pk3"), ("rel", "c08.pairs.n2s2k3"), ("rel", "c08.pairs.n2s3k2"), ("rel", "c08.pairs.trim.n3s3pk3"), ("rel", "c08.pairs.trim.n3s3pk4"), ("rel", "c08.single.ov.n2k4"), ("rel", "c08.pairs.ov.n2k3"), ("rel", "c08.pairs.ov1.n2k2"), ("rel", "c08.hist.bu.d5"), ("rel", "c08.hist.td.d5"), ("rel", "c08.hist.bu.seeded1.d4"), ("rel", "c08.hist.td.seeded1.d4"), ("rel", "c08.hist.bu.seeded2.d4"), ("rel", "c08.hist.td.seeded2.d3"), ("asan", "c08.hist.bu.d3"), ("asan", "c08.hist.td.d3"), ("asan", "c08.hist.bu.seeded1.d3")],
     "require": {"all": ["transitions_into_sharing_states", "intersection_nonempty", "class_useless_states", "lang_nonempty"]},
 }
 
